@@ -179,10 +179,15 @@ def build(src, n=2, fsm_states=FSM, sync=SYNC_CHOICES, failure=('CONTINUE', 'RES
 
 def assume_invariant(src, core, sit):
     """representation invariant of reachable states (each clause is re-established by the real code after any
-    step - asserted by H02-inv):
+    step - asserted by harness/c02.py check_invariant after every step):
       I1  a non-empty local Master is an instance seen RUNNING locally (update_instance_state resets it otherwise)
-      I2  the information kept about a peer seen STOPPED or ISOLATED is the default one (reset on invalidation)
-      I3  from ELECTION on the local instance sees itself RUNNING ... is NOT assumed: the code checks it itself
+      I2  the information kept about a peer seen ISOLATED is the default one (reset on invalidation; nothing is
+          accepted from it afterwards).  A peer seen STOPPED may have published since (Context.is_valid only refuses
+          ISOLATED origins), so nothing is assumed about it
+      I3  what a peer published obeys I1 from that peer's point of view: the Master it declares is RUNNING in the view it
+          published (update_instance_state resets the Master and publishes the new view in one publication) - asserted
+          on every local publication by check_invariant
+      (that the local instance sees itself RUNNING from ELECTION on is NOT assumed: the code checks it itself)
     """
     from supvisors.ttypes import SupvisorsInstanceStates as S, SupvisorsStates as F
     ids = sit['ids']
@@ -191,9 +196,20 @@ def assume_invariant(src, core, sit):
         src.assume(sor(lm != i, sit['ist'][k] == S.RUNNING))
     for k in range(1, sit['n']):
         p = sit['peers'][k - 1]
-        gone = sor(sit['ist'][k] == S.STOPPED, sit['ist'][k] == S.ISOLATED)
+        gone = sit['ist'][k] == S.ISOLATED
         default = sand(p['state'] == F.OFF, p['master'] == '')
         src.assume(sor(snot(gone), default))
+        src.assume(declares_running_master(p['master'], p['view'], ids))
+
+
+def declares_running_master(master, view, ids):
+    """I3 on one publication: no Master declared, or a Master that the publisher sees RUNNING"""
+    from supvisors.ttypes import SupvisorsInstanceStates as S
+    ok = master == ''
+    for i in ids:
+        if i in view:
+            ok = sor(ok, sand(master == i, view[i] == S.RUNNING))
+    return ok
 
 
 def published_states(core):
